@@ -284,6 +284,8 @@ class FixedCalendar(IWorkCalendar):
     def __init__(self, units: float, start: Optional[datetime] = None, end: Optional[datetime] = None):
         if units < 0:
             raise RuntimeError("Value must be >= 0")
+        if start is not None and end is not None and start > end:
+            raise RuntimeError("Start after end")
 
         self.__units = units
         self.__start = start
@@ -308,9 +310,16 @@ class DirectCalendar(IWorkCalendar):
             units: Optional[Dict[datetime, float]] = None
     ):
         if units is not None:
+            DirectCalendar.__check_units(units)
             self.__units = {_day_start(k): v for k, v in units.items()}
         else:
             self.__units = {}
+
+    @staticmethod
+    def __check_units(units: Dict[datetime, float]):
+        for v in units.values():
+            if v < 0:
+                raise RuntimeError("Units must be >= 0")
 
     def get_available_units(self, date: datetime) -> Optional[float]:
         key = _day_start(date)
@@ -320,6 +329,7 @@ class DirectCalendar(IWorkCalendar):
             return None
 
     def set_units(self, units: Dict[datetime, float]):
+        DirectCalendar.__check_units(units)
         self.__units = self.__units | units
 
     @property
@@ -345,6 +355,7 @@ class WeeklyCalendar(IWorkCalendar):
             units_per_day: Union[int, float, Dict[int, float]] = None,
     ):
         WeeklyCalendar.__check_working_days(days)
+        WeeklyCalendar.__check_start_end(start, end)
 
         if units_per_day is None:
             raise RuntimeError("units_per_day not specified")
@@ -361,6 +372,7 @@ class WeeklyCalendar(IWorkCalendar):
 
         else:
             if type(units_per_day) is dict:
+                WeeklyCalendar.__check_working_days(list(units_per_day.keys()))
                 self.__day_hours = {}
                 for i in range(0, 7):
                     val = units_per_day[i] if i in units_per_day else 0
